@@ -28,7 +28,7 @@ def table(rounds):
 
 p = os.path.join(ROOT, "DESIGN.md")
 s = open(p).read()
-for tag, rounds in (("TABLE1", (1,)), ("TABLE2", (2,)), ("TABLE3", (3,)), ("TABLE4", (4,)), ("TABLE5", (5,)), ("TABLE6", (6,)), ("TABLE7", (7,))):
+for tag, rounds in (("TABLE1", (1,)), ("TABLE2", (2,)), ("TABLE3", (3,)), ("TABLE4", (4,)), ("TABLE5", (5,)), ("TABLE6", (6,)), ("TABLE7", (7,)), ("TABLE8", (8,))):
     if "<!-- %s -->" % tag in s:
         s = re.sub(r"<!-- %s -->.*?<!-- /%s -->" % (tag, tag), "<!-- %s -->\n%s\n<!-- /%s -->" % (tag, table(rounds), tag), s, flags=re.S)
 open(p, "w").write(s)
